@@ -216,6 +216,9 @@ func checkC03(p *Program, r *Report) {
 					equal = true
 				case strings.HasPrefix(c, "(0 == call:bytes.Compare(") && strings.Contains(c, "leafPrefix") && ofKey(c):
 					equal = true
+				case !isCmpCall && strings.Contains(c, " == ") && !strings.Contains(c, " != ") && strings.Contains(c, "leafPrefix") && strings.Contains(c, "string(") && ofKey(c):
+					// string(stored tail) == rest of the key
+					equal = true
 				}
 			}
 			if !(noTails || (ended && noTail) || equal) {
